@@ -109,6 +109,10 @@ pub fn corruptions(format: &str) -> Vec<Corruption> {
         out.push(Corruption { doc: Doc::new("aig:lf-second-delta", b"aig 12 11 0 0 1\n\x02\x0aq\n".to_vec()), line: 3, col_first: 1, col_last: 1, what: "garbage behind a gate whose second delta is the byte 0x0a".into() });
         out.push(Corruption { doc: Doc::new("aig:lf-delta-then-bad-delta", b"aig 12 10 0 0 2\n\x0a\x01\x7f\x00".to_vec()), line: 3, col_first: 2, col_last: 2, what: "second gate's delta too large, after a gate with an 0x0a delta".into() });
         // binary section: delta larger than the reference code, over-long varint
+        // a two-byte delta whose final byte is 0x0a (value 1280), then errors on later lines
+        out.push(Corruption { doc: Doc::new("aig:lf-in-two-byte-delta-then-symbol", b"aig 700 699 0 0 1\n\x80\x0a\x02i0 x\ni999 y\n".to_vec()), line: 4, col_first: 2, col_last: 4, what: "symbol index out of range after a gate whose first delta is encoded as 0x80 0x0a".into() });
+        out.push(Corruption { doc: Doc::new("aig:lf-in-two-byte-second-delta", b"aig 1400 1399 0 0 1\n\x02\x80\x0aq\n".to_vec()), line: 3, col_first: 1, col_last: 1, what: "garbage behind a gate whose second delta is encoded as 0x80 0x0a".into() });
+        out.push(Corruption { doc: Doc::new("aig:lf-in-three-byte-delta-then-bad-delta", b"aig 90000 89998 0 0 2\n\x80\x80\x0a\x02\xff\xff\x7f\x00".to_vec()), line: 3, col_first: 2, col_last: 4, what: "second gate's delta too large, after a gate with a delta encoded as 0x80 0x80 0x0a".into() });
         out.push(Corruption { doc: Doc::new("aig:delta-too-large", b"aig 3 2 0 1 1\n6\n\x08\x02".to_vec()), line: 3, col_first: 1, col_last: 1, what: "first delta larger than the gate's own code".into() });
         out.push(Corruption { doc: Doc::new("aig:delta2-too-large", b"aig 3 2 0 1 1\n6\n\x02\x06".to_vec()), line: 3, col_first: 2, col_last: 2, what: "second delta larger than the first input code".into() });
         out.push(Corruption { doc: Doc::new("aig:overlong-varint", b"aig 3 2 0 1 1\n6\n\x02\x80\x80\x80\x80\x80\x80\x80\x80\x80\x80\x80\x00".to_vec()), line: 3, col_first: 2, col_last: 13, what: "over-long 7-bit code".into() });
